@@ -13,6 +13,7 @@ package main
 // differs := the comparison was made and said "not equal".
 
 //@ func formatBytes
+//@ noauto
 //@ props C35 C36
 //@ nosafety
 //@ stable list write diff errFormattingDiffers
